@@ -244,7 +244,8 @@ func (fr *Frame) exec(ins ssa.Instruction, st *State) {
 		for _, b := range ins.Bindings {
 			bs = append(bs, fr.val(b))
 		}
-		fr.env[ins] = Val{closure: &Closure{fn: ins.Fn.(*ssa.Function), bindings: bs}, typ: ins.Type()}
+		cl := &Closure{fn: ins.Fn.(*ssa.Function), bindings: bs}
+		fr.env[ins] = Val{closure: cl, typ: ins.Type(), t: ex.funcID(cl)}
 	case *ssa.Defer, *ssa.Go, *ssa.Select, *ssa.Send, *ssa.MakeChan:
 		unsup("%T is outside the supported subset", ins)
 	default:
